@@ -6,7 +6,7 @@ ID=$1; NAME=$2; WT=/tmp/wt/$ID; S=$WT/_seeded
 [ -f $S/patch.diff ] && [ -f $S/demo.py ] && [ -f $S/meta.json ] || { echo "missing deliverables in $S"; exit 2; }
 cd $WT
 git diff -- statemachine > /tmp/wt/$ID.cur.diff
-git stash -q -- statemachine 2>/dev/null || git checkout -q -- statemachine
+git checkout -q -- statemachine
 git apply --check $S/patch.diff || { echo "patch does not apply to the unchanged tree"; exit 2; }
 PYTHONPATH=$WT timeout 120 /venv/bin/python $S/demo.py > /tmp/wt/$ID.demo0.log 2>&1; D0=$?
 git apply $S/patch.diff
@@ -20,6 +20,7 @@ if [ $D0 -eq 0 ] && [ $D1 -ne 0 ] && echo "$T" | grep -q "348 passed"; then
   /venv/bin/python - <<PY
 import json
 m=json.load(open("$S/meta.json"))
+m["base_commit"]="$(git -C $WT rev-parse --short HEAD)"
 m["verified_by_me"]={"demo_without_change_exit":$D0,"demo_with_change_exit":$D1,"tests":"$T".strip(),
   "how":"tools/verify_seeded.sh: patch applied with git apply to an unchanged worktree of /repo HEAD; pytest suite; demo run both ways"}
 json.dump(m,open("/verif/seeded/$NAME/meta.json","w"),indent=1)
